@@ -1,5 +1,5 @@
 Require Extraction.
 Require Import ExtrOcamlBasic.
-From SCMO Require Import Lib.Val Model.C08.
-Definition run := run_C08.
+From SCMO Require Import Lib.Val Model.C08 Model.C08x.
+Definition run := run_C08x.
 Extraction "c08_model.ml" run.
